@@ -40,7 +40,8 @@ Record query := Query {
   q_group : bool;                 (* AggQuery.GroupBy != nil *)
   q_interval : N;                 (* AggQuery.Interval (0 = no time series) *)
   q_quants : list quant;
-  q_netok : N                     (* id of the token "_not_exists" in this case's token table *)
+  q_netok : N;                    (* id of the token "_not_exists" in this case's token table *)
+  q_scale : Z                     (* the case's unit is 2^-scale (only the sentinels of a fresh container need it) *)
 }.
 
 Definition selected (from to : N) (d : doc) : bool :=
@@ -62,10 +63,12 @@ Record summ := Summ {
                        not modelled, the sample list is unreliable from then on *)
 }.
 
-(* NewSamplesContainers: Min = MaxInt64, Max = MinInt64 in the code.  Both are dead values: every
-   reader either tests Total = 0 first or overwrites them on the first insertion; the model uses 0
-   and the comparison ignores min/max of a container with Total = 0. *)
-Definition new_summ : summ := Summ 0 0 0 0 0 [] false.
+(* NewSamplesContainers: Min = float64(math.MaxInt64) = 2^63, Max = float64(math.MinInt64) = -2^63
+   (in units 2^-sc).  These sentinels are NOT neutral for min/max: field values may lie beyond
+   +-2^63 (uint64 ids, "1e19", "1e300"), which is why InsertNTimes and Merge special-case Total = 0
+   instead of relying on them. *)
+Definition sentinel (sc : Z) : Z := 2 ^ 63 * 2 ^ sc.
+Definition new_summ (sc : Z) : summ := Summ (sentinel sc) (- sentinel sc) 0 0 0 [] false.
 
 Definition insert_sample (v : Z) (s : summ) : summ :=
   if (N.of_nat (length (s_samples s)) <? max_samples)%N
@@ -100,6 +103,17 @@ Definition merge_summ (h x : summ) : summ :=
                    (s_ovf h || s_ovf x) in
     fold_left (fun acc v => insert_sample v acc) (s_samples x) h1.
 
+(* Merge with the Total = 0 case of the destination collapsed into plain min/max, i.e. relying on the
+   sentinels of a fresh container (NOT the code; kept to document why the special case is needed) *)
+Definition merge_summ_v0 (h x : summ) : summ :=
+  let ne := (s_ne h + s_ne x)%N in
+  if (s_total x =? 0)%N then
+    Summ (s_min h) (s_max h) (s_sum h) (s_total h) ne (s_samples h) (s_ovf h)
+  else
+    let h1 := Summ (Z.min (s_min h) (s_min x)) (Z.max (s_max h) (s_max x)) (s_sum h + s_sum x)
+                   (s_total h + s_total x)%N ne (s_samples h) (s_ovf h || s_ovf x) in
+    fold_left (fun acc v => insert_sample v acc) (s_samples x) h1.
+
 (* ---------------------------------------------------------------- maps of bins *)
 
 Definition key := (N * N)%type.     (* AggBin: (MID, token id) *)
@@ -120,15 +134,15 @@ Fixpoint alter (k : key) (f : option summ -> summ) (m : bins) : bins :=
   | (k', v) :: r => if key_eqb k k' then (k', f (Some v)) :: r else (k', v) :: alter k f r
   end.
 
-Definition or_new (o : option summ) : summ := match o with Some s => s | None => new_summ end.
+Definition or_new (sc : Z) (o : option summ) : summ := match o with Some s => s | None => new_summ sc end.
 
 (* AggregatableSamples *)
 Record aggs := Aggs { a_bins : bins; a_ne : N }.
 Definition empty_aggs : aggs := Aggs [] 0.
 
 (* AggregatableSamples.Merge: q.Merge(a) *)
-Definition merge_aggs (q a : aggs) : aggs :=
-  Aggs (fold_left (fun m kv => alter (fst kv) (fun o => merge_summ (or_new o) (snd kv)) m) (a_bins a) (a_bins q))
+Definition merge_aggs (sc : Z) (q a : aggs) : aggs :=
+  Aggs (fold_left (fun m kv => alter (fst kv) (fun o => merge_summ (or_new sc o) (snd kv)) m) (a_bins a) (a_bins q))
        (a_ne q + a_ne a).
 
 (* ---------------------------------------------------------------- sourced OR tree, lock-step walk *)
@@ -222,26 +236,26 @@ Definition step (q : query) (mid : N) (g : option N) (f : option Z) (st : aggs) 
   match q_func q with
   | FCount =>                                   (* SingleSourceCountAggregator *)
       match g with
-      | Some t => Aggs (alter (b, t) (fun o => add_total (or_new o)) (a_bins st)) (a_ne st)
+      | Some t => Aggs (alter (b, t) (fun o => add_total (or_new (q_scale q) o)) (a_bins st)) (a_ne st)
       | None => Aggs (a_bins st) (a_ne st + 1)
       end
   | FUnique =>                                  (* SingleSourceUniqueAggregator *)
       match g with
-      | Some t => Aggs (alter (0%N, t) or_new (a_bins st)) (a_ne st)
+      | Some t => Aggs (alter (0%N, t) (or_new (q_scale q)) (a_bins st)) (a_ne st)
       | None => Aggs (a_bins st) (a_ne st + 1)
       end
   | _ =>
       if q_group q then                         (* TwoSourceAggregator *)
         match g, f with
         | None, None => st
-        | Some t, None => Aggs (alter (0%N, t) (fun o => add_ne (or_new o)) (a_bins st)) (a_ne st)
+        | Some t, None => Aggs (alter (0%N, t) (fun o => add_ne (or_new (q_scale q) o)) (a_bins st)) (a_ne st)
         | None, Some _ => Aggs (a_bins st) (a_ne st + 1)
-        | Some t, Some v => Aggs (alter (b, t) (fun o => insert_val collect v (or_new o)) (a_bins st)) (a_ne st)
+        | Some t, Some v => Aggs (alter (b, t) (fun o => insert_val collect v (or_new (q_scale q) o)) (a_bins st)) (a_ne st)
         end
       else                                      (* SingleSourceHistogramAggregator; token "" = id 0 *)
         match f with
-        | None => Aggs (alter (b, 0%N) (fun o => add_ne (or_new o)) (a_bins st)) (a_ne st)
-        | Some v => Aggs (alter (b, 0%N) (fun o => insert_val collect v (or_new o)) (a_bins st)) (a_ne st)
+        | None => Aggs (alter (b, 0%N) (fun o => add_ne (or_new (q_scale q) o)) (a_bins st)) (a_ne st)
+        | Some v => Aggs (alter (b, 0%N) (fun o => insert_val collect v (or_new (q_scale q) o)) (a_bins st)) (a_ne st)
         end
   end.
 
@@ -301,7 +315,7 @@ Inductive mtree := Leaf (ds : list doc) | Node (l r : mtree).
 Fixpoint eval_tree (q : query) (t : mtree) : aggs :=
   match t with
   | Leaf ds => frac_run q ds
-  | Node l r => merge_aggs (eval_tree q l) (eval_tree q r)
+  | Node l r => merge_aggs (q_scale q) (eval_tree q l) (eval_tree q r)
   end.
 
 Fixpoint tree_docs (t : mtree) : list doc :=
